@@ -119,8 +119,9 @@ def check_reduction(a, spec, name, axis_form, axis_dims, skipna, cl, attrs=None)
     sig["fibre"] = "all-nan" if all_nan_fibre else ("nan" if any_nan else "finite")
     res = lib(lambda: getattr(a, name)(**kw), what=what, sig=sig)
     if not remaining:
-        check(not isinstance(res, da.DimArray) or res.ndim == 0, "scalar-expected", {"what": what, "got": core.brief(res)}, sig)
-        got = res.values.item() if isinstance(res, da.DimArray) else res
+        # "reduces the whole array to a scalar": a Python or NumPy scalar, not a 0-d ndarray or a 0-d DimArray
+        check(not isinstance(res, (da.DimArray, np.ndarray)), "scalar-expected", {"what": what, "got": core.brief(res), "type": type(res).__name__}, sig)
+        got = res
         exp = reduce_list(name, fibres[()], skipna)
         check(core.same_scalar(got, exp, tol=True), "value", {"what": what, "got": core.jsonable(got), "expected": core.jsonable(exp)}, sig)
     else:
